@@ -19,6 +19,8 @@ def interval_in_default_unit(node, ast):
         else:
             b_unit = ast.unit
             e_unit = ast.unit
+    elif len(e_unit) == 0:
+        e_unit = b_unit
     begin = Fraction(node.begin) * ast.U[b_unit] / ast.U[ast.unit]
     end = Fraction(node.end) * ast.U[e_unit] / ast.U[ast.unit]
     return begin, end
